@@ -6,6 +6,10 @@ package main
 // are flushed into a MemDB whose write lock the open iterator's goroutine still holds).
 
 import (
+	"go/ast"
+	goparser "go/parser"
+	"go/token"
+	"path/filepath"
 	"go/constant"
 	"go/types"
 	"fmt"
@@ -267,4 +271,57 @@ func keyTableCheck(l *Loaded, prop string, withOracle bool) []*OblReport {
 		}
 	}
 	return reps
+}
+
+// maccPermsCheck (layer F, syntactic over the AST of module/app/app.go): the module-account permission table grants
+// the bridge module account both Minter and Burner. bank.BurnCoins / MintCoins panic without the permission; with it
+// BurnCoins can only fail for insufficient funds, which is what the bank model assumes.
+func maccPermsCheck(prop string) *OblReport {
+	rep := &OblReport{Name: prop + "/F/module-account-permissions", Kind: "config", Func: "app.maccPerms", Solver: "syntactic"}
+	file := filepath.Join(repoRoot, "module", "app", "app.go")
+	fset := token.NewFileSet()
+	f, err := goparser.ParseFile(fset, file, nil, 0)
+	if err != nil {
+		rep.Status = "failed: cannot parse module/app/app.go: " + err.Error()
+		return rep
+	}
+	rep.Status = "failed: maccPerms has no entry for mhub2types.ModuleName"
+	ast.Inspect(f, func(n ast.Node) bool {
+		vs, ok := n.(*ast.ValueSpec)
+		if !ok || len(vs.Names) != 1 || vs.Names[0].Name != "maccPerms" || len(vs.Values) != 1 {
+			return true
+		}
+		cl, ok := vs.Values[0].(*ast.CompositeLit)
+		if !ok {
+			return true
+		}
+		for _, el := range cl.Elts {
+			kv, ok := el.(*ast.KeyValueExpr)
+			if !ok {
+				continue
+			}
+			key, ok := kv.Key.(*ast.SelectorExpr)
+			if !ok || key.Sel.Name != "ModuleName" {
+				continue
+			}
+			if id, ok := key.X.(*ast.Ident); !ok || id.Name != "mhub2types" {
+				continue
+			}
+			have := map[string]bool{}
+			if vl, ok := kv.Value.(*ast.CompositeLit); ok {
+				for _, pe := range vl.Elts {
+					if se, ok := pe.(*ast.SelectorExpr); ok {
+						have[se.Sel.Name] = true
+					}
+				}
+			}
+			if have["Minter"] && have["Burner"] {
+				rep.Status = "discharged"
+			} else {
+				rep.Status = "failed: maccPerms[mhub2types.ModuleName] lacks Minter or Burner: bank.MintCoins / BurnCoins panic without them"
+			}
+		}
+		return false
+	})
+	return rep
 }
